@@ -96,6 +96,7 @@ func c05Cases(seed int64, tier string) []core.Case {
 	for i, cfg := range []Ext4Cfg{{Size: 16 << 20}, {Size: 32 << 20, SPB: 8, Off: []string{"resize_inode"}, Start: 1 << 20}} {
 		cs = append(cs, core.MkCase(fmt.Sprintf("stalegap-%d", i), "stalegap", seed+int64(i), ext4Case{Cfg: cfg, Mode: "stalegap", Fsck: 40}))
 	}
+	cs = append(cs, core.MkCase("bigwrite-0", "bigwrite", seed, ext4Case{Cfg: Ext4Cfg{Size: 32 << 20, SPB: 2, BPG: 2048}, Mode: "bigwrite", Fsck: 1}))
 	nf := 3
 	if tier == "thorough" {
 		nf = 24
